@@ -27,7 +27,7 @@ pub fn meta() -> PropMeta {
         nontrivial_floor: 0.2,
         run,
         replay,
-        crashy: false,
+        crashy: true,
     }
 }
 
@@ -742,7 +742,7 @@ fn case(ctx: &ShardCtx, c: &Case, obs: &mut Obs) -> Result<(), String> {
 
 fn run(ctx: &ShardCtx, rep: &mut Report) {
     MAX_SHRINK_ITERS.store(400, std::sync::atomic::Ordering::Relaxed);
-    pt_run(ctx, rep, "lifecycle", ctx.budget(16_000, 800_000), case_strategy(), |c, o| case(ctx, c, o));
+    pt_run(ctx, rep, "lifecycle", ctx.budget(80_000, 4_000_000), case_strategy(), |c, o| case(ctx, c, o));
 }
 
 fn replay(variant: &str, case_json: &Json) -> Result<(), String> {
